@@ -330,9 +330,10 @@ def constant_generator(v: int, x: int, y: int, z: int) -> bool:
 BOUNDS = {"worlds": "LineWorld(3), GridWorld(2,2), DiscreteWorld(2,1,2), DiscreteWorld(2,0,2), DiscreteWorld(0,0,0) through the real constructors",
           "sources": "callable with opaque symbolic values, list with solver-chosen element kinds (int, str, float, tuple, None, bool), numpy int array",
           "history": "<= 2/3 add/remove operations over 3 names on two same-shaped worlds", "lookup tables": "1-D (3), 2-D (2x2), 3-D (2x2x2) with symbolic entries"}
-OUTSIDE = ["pandas' own behaviour beyond the stubbed contract (dtype inference, index alignment, copy-on-write internals)",
+OUTSIDE = ["pandas' own behaviour beyond the stubbed contract (dtype inference other than the measured None-among-numbers rule, index alignment, copy-on-write internals)",
            "cell tables larger than 4-8 cells"]
-STUBS = ["functools.lru_cache-wrapped helpers of ECAgent.Environments replaced by a Python-level memo inside patched_pandas()",
+STUBS = ["pandas stand-in vf.stubs.Frame: column assignment (with the measured dtype-inference rule: None among numbers becomes NaN), drop, in, len, iloc, assign, update, concat(axis=1), Series; to_numeric is the real pandas function on a concrete array",
+         "functools.lru_cache-wrapped helpers of ECAgent.Environments replaced by a Python-level memo inside patched_pandas()",
          "ECAgent.Environments.pandas replaced by a module whose DataFrame is the contract stand-in described in the module docstring",
          "Model.logger replaced by a no-op logger"]
 ASSUMPTIONS = ["pandas stores element i of an assigned sequence for row i, copies lists, and MAY alias ndarrays (worst case)"]
